@@ -3,8 +3,8 @@ import copy, itertools, random
 from .. import core, gen, ref
 from . import cu
 
-MODULES = ['DsdVerif.Props.C09', 'DsdVerif.Props.PyFuncs']
-GEN_FILES = ['PyFuncs']
+MODULES = ['DsdVerif.Props.C09', 'DsdVerif.Props.PyFuncs', 'DsdVerif.Props.PyComplexS2']
+GEN_FILES = ['PyFuncs', 'PyComplexS', 'PyComplexS2']
 THEOREM_NAMES = ['split_spec', 'split_connected_id', 'split_fuel_mono', 'split_parts_wellformed',
                  # object level (World model): Props/C09Obj.lean
                  'splitC_connected_self', 'splitC_no_fault', 'splitC_components', 'splitC_twice', 'splitC_refusal_reason',
@@ -13,7 +13,9 @@ THEOREM_NAMES = ['split_spec', 'split_connected_id', 'split_fuel_mono', 'split_p
 THEOREMS = ['Dsd.C09.' + t for t in THEOREM_NAMES] + ['Dsd.PyFuncs.' + t for t in [
     # split_complex_pt as written in the source (Gen/PyFuncs.lean, regenerated on every run): generator, recursion, splice, seen dict
     'py_split_complex_pt_eq', 'py_split_complex_pt_eq_lm', 'py_split_of_py_pair_table', 'py_split_spec', 'py_split_malformed_faults',
-    'py_make_loop_index_eq', 'py_make_pair_table_eq', 'py_split_complex_db_eq', 'py_split_complex_db_wellformed']]
+    'py_make_loop_index_eq', 'py_make_pair_table_eq', 'py_split_complex_db_eq', 'py_split_complex_db_wellformed']] + ['Dsd.PyComplexS2.' + t for t in [
+    # ComplexS.split as written in the source (translator/pycomplex2.py -> Gen/PyComplexS2.lean; `self.__class__(nseq, nsst)` is a parameter `request`)
+    'py_split_spec', 'py_split_components', 'splitRun_cons_ok', 'splitRun_cons_refused']]
 ASSUMPTIONS = [
     'split_complex_pt is hand-modelled (Model/Complex.lean: splitScan, splice, splitPt with fuel = number of strands + 1) and tied to '
     'the code by the correspondence stream `split`',
@@ -39,6 +41,7 @@ MANIFEST = {
             'held afterwards). The same contract is checked on the real code over every subset of pre-existing components.'
             ' STATEMENT LEVEL, FROM THE SOURCE: split_complex_pt - the recursive generator with its nested splice(), the seen dict, break, asserts and the call of make_loop_index - is transcribed statement by statement from the working tree (translator/pyfunc.py -> Gen/PyFuncs.lean: generators as lists, recursion on an explicit fuel, checked subtraction) and proved equal to the model for every table make_pair_table returns and every strand table (py_split_complex_pt_eq, under the splice-closed invariant py_split_complex_pt_eq_lm), so the main theorem holds of the code as written (py_split_spec: the parts are sub-complexes on index sets that partition the strands, every part connected); py_split_malformed_faults shows the hypothesis is needed; the transcription is run against the implementation on every generated input.',
     'note': 'Object-level theorems are about World.splitC, tied to ComplexS.split() by correspondence; trusted base as in DESIGN.md 3.',
+    'source_derived': 'The object method ComplexS.split is transcribed from the working tree too (translator/pycomplex2.py -> Gen/PyComplexS2.lean; the construction request self.__class__(nseq, nsst) is a parameter that may refuse with or without `existing`): PyComplexS2.py_split_spec proves that for EVERY request function the list yielded is the request applied to the parts of split_complex_pt as written, in order, a refusal with `existing` yielding that object and the first refusal without it aborting; py_split_components composes it with PyFuncs.py_split_spec (the parts are the connected components); stream ComplexS.split.source-derived with the real requests recorded by a metaclass.',
     'technique': 'Lean 4 proof by strong induction on the number of strands (splice preserves well-formed matchings); correspondence check; union-find oracle',
 }
 
@@ -458,6 +461,8 @@ def run(res, proof):
     except core.DriverBroken as e:
         proof.problem('driver', str(e))
     cu.source_derived_stream(res, proof, 'complex_utils.split.source-derived', ops, impl)
+    from .pycomplex2_stream import source_derived_pycomplex2
+    source_derived_pycomplex2(res, proof)      # ComplexS.split / is_domainlevel_complement as translated from the working tree
     for op in ops[::max(1, len(ops) // 8)]:
         res.sample('\t'.join(op))
 
